@@ -32,8 +32,8 @@ claim("C05",
       "Both mechanisms of C05 decided statically: no exported mat function or method may write through a matrix-typed parameter other than the receiver or dst (187 parameters, interprocedural); every kernel write of the destination that also reads an operand's raw storage is preceded on every path by an overlap guard, identity edge, isolated workspace or guarded delegation; the overlap predicate's element size matches the element type in the default and safe builds. Three pre-existing unguarded arms are reproduced and recorded as known findings. The overlap predicate's arithmetic is NOT decided.",
       TRUST, 'DESIGN.md §3.5, §4 C05')
 claim("C06",
-      "custom CFG def-use and path analysis of status results (ok/error/Condition discipline); CFG ordering rule norm-before-factorization; field-completeness lint of update-from-original methods; SSA constant-nil-receiver analysis",
-      "The 'reported through ok/error rather than a silently wrong answer' clause decided for every call site and return in mat, lapack64 and lapack/gonum: no LAPACK/mat status is dropped, no success is returned on the path where a callee failed, every solver can return Condition and does so exactly under cond > ConditionTolerance; the norm used by a condition estimate is taken before the in-place factorization; Clone/Scale/SymRankOne/ExtendVecSym/RankOne rebuild every field of the receiver; no factorization method calls through a constant nil pointer (three defects found and repaired: BandCholesky.Cond, LU.RankOne's ok, Cholesky.SymRankOne). Reconstruction identities and update formulas are NOT decided.",
+      "custom CFG def-use and path analysis of status results (ok/error/Condition discipline); CFG ordering rule norm-before-factorization; field-completeness lint of update-from-original methods; rcond/cond unit inference from the LAPACK estimators to the Condition sinks; SSA constant-nil-receiver analysis",
+      "The 'reported through ok/error rather than a silently wrong answer' clause decided for every call site and return in mat, lapack64 and lapack/gonum: no LAPACK/mat status is dropped, no success is returned on the path where a callee failed, every solver can return Condition and does so exactly under cond > ConditionTolerance; the norm used by a condition estimate is taken before the in-place factorization; the reciprocal condition number of the LAPACK estimators is inverted before it is compared with the tolerance or reported; Clone/Scale/SymRankOne/ExtendVecSym/RankOne rebuild every field of the receiver; no factorization method calls through a constant nil pointer (four defects found and repaired: BandCholesky.Cond, LU.RankOne's ok, Cholesky.SymRankOne, TriDense.InverseTri/SolveTo never reporting ill-conditioning). Reconstruction identities and update formulas are NOT decided.",
       TRUST, "DESIGN.md §3.6, §4 C06")
 
 claim("C09",
